@@ -87,4 +87,27 @@ SPECS = {
         "real": ["lerax AbstractAlgorithmState.next, DQN.per_iteration, SAC.sac_train gating, _soft_update_targets"],
         "stub": STUB_MDP[:3],
     },
+    "C01": {
+        "scenarios": [{"name": "protocol", "runs": {"quick": 120, "thorough": 1000000}, "chunks": {"quick": 1, "thorough": 1}}],
+        "budget_s": {"quick": 600, "thorough": 1200},
+        "rule": "one evaluation = one seeded operation sequence (reset / step / functional calls / 256-reset batch, 5..60 ops) on a wrapper-stack "
+        "program over a drawn SimMDP; every step and reset is refined against RefMDP∘RefStack from the INPUT state (reward, flags, fresh state on "
+        "done with clocks and counters restarted, observation of the returned state); non-trivial = an episode-ending event fired; distinct = "
+        "distinct (stack program, fired event kinds with bucketed counts)",
+        "assumptions": ["SimMDP tables trusted; the successor of a done step is hidden by the auto-reset, so flags/reward are matched existentially over the legal successors"],
+        "real": ["lerax AbstractEnvLike.step/reset, all 11 documented wrappers, rescale_box, spaces' contains"],
+        "stub": ["SimMDP finite-MDP environments (tables drawn per run)"],
+    },
+    "C13": {
+        "scenarios": [{"name": "protocol", "runs": {"quick": 120, "thorough": 1000000}, "chunks": {"quick": 1, "thorough": 1}}],
+        "budget_s": {"quick": 600, "thorough": 1200},
+        "rule": "one evaluation = one seeded operation sequence on a wrapper-stack program (all 11 documented wrappers, depth 0..4) over a drawn "
+        "SimMDP, incl. direct calls of every functional component, bound corners fed explicitly, construction of every documented wrapper, "
+        "advertised spaces, name/unwrapped pass-through and exact TimeLimit counters; non-trivial = an event fired (episode end, bound corner); "
+        "distinct = distinct (stack program, fired event kinds)",
+        "assumptions": ["RescaleAction/RescaleObservation only over bounded boxes with dyadic bounds (corners exactly representable)",
+                        "adapters (Gymnasium/Gymnax) are covered by the `peers` scenario"],
+        "real": ["all 11 documented lerax wrappers, AbstractEnvLike.step/reset"],
+        "stub": ["SimMDP finite-MDP environments"],
+    },
 }
